@@ -152,14 +152,20 @@ class SymRef:
         return SymInt(z3.ZeroExt(W - 8, n)), [SymInt(mem.zx(b)) for b in bs]
 
     def uvarint(self, x, w):
+        if isinstance(x, int):
+            return NatRef().uvarint(x, w)      # concrete value: concrete reference bytes
         return self._wrap(*refcodec.uvarint(z3.Extract(w - 1, 0, bv(x))))
 
     def svarint(self, x, w=64):
+        if isinstance(x, int):
+            return NatRef().svarint(x, w)
         # the Python runtime zig-zags every signed width with a 63-bit sign shift (== width-w zig-zag
         # of the sign-extended value); the reference is the documented zig-zag at 64 bits
         return self._wrap(*refcodec.svarint(z3.Extract(63, 0, bv(x))))
 
     def fixed(self, x, nbytes):
+        if isinstance(x, int):
+            return NatRef().fixed(x, nbytes)
         return self._wrap(*refcodec.fixed_le(z3.Extract(8 * nbytes - 1, 0, bv(x))))
 
     def bool(self, b):
@@ -754,6 +760,7 @@ def replay_main(spec):
     nat, err = run_native(mods, harness, spec["job"]["params"], spec["inputs"])
     print("harness :", spec["job"]["harness"], json.dumps(spec["job"]["params"]))
     print("inputs  :", json.dumps(spec["inputs"]))
+    print("observed:", json.dumps(nat.obs, default=str)[:600])
     if nat.last_exc is not None:
         print("last exception raised by the real code:")
         print("".join(traceback.format_exception(nat.last_exc)))
